@@ -54,6 +54,9 @@ def _compare_selected(ctx, clause, spec, var, result, req_dim, requests, kind, w
     ctx.check(kept_order == other, clause,
               lambda: f"{what}: other dimensions of {var['name']} reordered: {kept_order} vs {other}")
     values = result.transpose(*(([req_dim] if req_dim else []) + other)).values
+    if var["dtype"] == "M8":
+        ctx.check(values.dtype.kind == "M", clause,
+                  lambda: f"{what}: time stamp variable {var['name']} came back as {values.dtype}")
     for r, lin in enumerate(requests):
         for extra_idx in itertools.product(*(range(sizes[d]) for d in other)):
             got = values[((r,) if req_dim else ()) + extra_idx]
@@ -328,7 +331,8 @@ POINT_REQUEST = st.fixed_dictionaries({
 def cases(draw):
     spec = draw(S.dataset_spec(max_vars=4, min_vars=2, max_extra=2,
                                modes=("raw", "raw", "decoded"),
-                               var_kwargs={"grid_required": False}))
+                               var_kwargs={"grid_required": False,
+                                           "dtypes": ("f8", "f8", "f4", "i4", "i2", "M8")}))
     return {
         "spec": spec,
         "index_requests": draw(st.lists(INDEX_REQUEST, min_size=1, max_size=2)),
